@@ -77,9 +77,17 @@ CLAIMED["C14"] = dict(
    note="bookmark levels >= 1 is a precondition (established by the bookmark-level validator and the level != 0 test, not proved through the box tree); HitArea / IsAttachment / Rectangle.Unpack trusted frame-only; getMatrix preconditions waived at the call (C17); map iteration order of page.anchors is abstracted (any order); float-as-real",
    ref="DESIGN.md §4 C14")
 
+CLAIMED["C01"] = dict(
+   text="PARTIAL by construction: 'rendering any document terminates without crashing' is a whole-program property; what is decided here is panic-freedom and termination, for all inputs, of the components that are under contract as nopanic with loop/recursion measures and that every rendering goes through: the CSS tokenizer and rule parsers, the selector parser, the SVG path/number parsers, the counter-style algorithms, the bookmark outline builder (its internal consistency panic is unreachable), plus: NewHTML always returns an element node as document root or an error (defect found and fixed: a comment before <html> became the root), and var() substitution terminates on every custom-property graph (bounded enumeration; two fatal stack-overflow defects found and fixed). The recursive layout engine (blocks, inlines, tables, flex, grid, pagination loops), box building, drawing and the text back end are NOT under contract: their termination and panic-freedom are not decided by this check.",
+   note="everything listed under C06, C07, C14, C18, C19 applies; stack depth of recursion is not modelled; machine-int-as-math; unknown callees are assumed to return",
+   ref="DESIGN.md §4 C01")
+
 NOT_YET = {}
 
 NA = {
+ "C02": "conservation of content across line and page breaking relates the multiset of text laid out to the text drawn over a whole rendering (a trace / multiset property over the recursive layout engine and the drawing pass); the functions that would carry it (splitInlineBox, blockContainerLayout, makePage, drawText) are mutually recursive over the box tree with resume-at stacks and are outside the subset the VC generator handles precisely (interface-typed box trees copied at every step). No kernel of it could be isolated as a postcondition of one call; no bounded stand-in was built either (the text engine needs a font cache that is absent from this sandbox). See DESIGN.md §5",
+ "C09": "well-formedness of the box tree is a recursive predicate over interface-typed trees built by mutually recursive rewriting passes (inlineInBlock, blockInInline, wrapImproper, table wrapping); the contract language has no recursive predicates over heap trees, so the structural clauses cannot be stated as postconditions. The one clause that could be stated locally — no two cells on the same grid slot — is under contract in wrapTable and FAILS on the real code: it is reported as a known finding by the C13 check (known_findings.txt, property=C09 and C13). See DESIGN.md §5",
+ "C16": "painting order is a property of the ORDER of backend calls within one drawStackingContext activation (and of the recursive activations it triggers): a trace property. Contracts on single calls cannot say 'A is painted before B' without ghost trace state, which the engine does not have; the phases live in nested closures whose captured variables are havocked by the recursive drawing calls. The classification kernel (NewStackingContext: children split by the sign of z-index, stable sort) was put under contract but its obligations did not discharge stably within the quick timeout (whole-struct slice elements, three aliasing lists), so it was removed rather than claimed. See DESIGN.md §5",
  "C15": "determinism / non-interference quantifies over goroutine schedules and pairs of runs (2-safety, data races): no pre/postcondition on one call can state it; see DESIGN.md §5",
 }
 
